@@ -138,6 +138,11 @@ def handle (args : List String) (obs : String) : String :=
         if logger == "R" then
           let want := "lost=0,panics=0,refused=0#"
           (want, if ob == want then [] else ["installed-logger-lost-or-guard-panicked"]) else
+        -- Y: a logger is removed while a call is in flight: once the removal has returned nothing more arrives at it
+        -- (world model: a logging call is one step; after `dropGuard` no outcome is `toLogger` of that logger)
+        if logger == "Y" then
+          let want := "late=0#"
+          (want, if ob == want then [] else ["event-delivered-to-a-removed-logger"]) else
         let isX := logger == "X"
         let sink := if logger == "A" ∨ logger == "S" ∨ isX then Sink.installed true else if logger == "D" then .installed false else .none
         match (progsS.splitOn "/").mapM (fun p => (splitNonEmpty p ",").mapM parseOp) with
